@@ -12,8 +12,62 @@ func c10Gen(g *G) {
 	r := g.R
 	pool := []string{"o", "b", "vl", "e"}
 	g.Emit("c10.run o g0;w1;u;x;n42;c(u,p,x,a0)", "acks")
+	// an acknowledgement whose write is slow while another caller sends (the msg_id order must still be the
+	// write order); messages created earlier and delivered later; a verbatim re-send
+	g.Emit("c10.run o,o g0;w1;ywk:3000:1;a0;s400;g1;w2;a1", "yield-slow-ack-write")
+	g.Emit("c10.run o,o,o g0;w1;ywk:2500:2;u;a0;s300;g1+2;w3;x;a2;a1", "yield-slow-ack-write")
+	g.Emit("c10.run o g0;w1;h;u;c(u,a0);^u;W", "late-delivery")
+	g.Emit("c10.run o h;h;n55;^x;g0;w1;^u;a0", "late-delivery")
+	g.Emit("c10.run o g0;w1;u;W;=;W;a0", "resend")
 	n := g.N(60, 1500)
 	for i := 0; i < n; i++ {
+		if r.Intn(3) == 0 {
+			// two waves of callers; acknowledgement writes are slow while the second wave sends; some
+			// server messages carry msg_ids taken before messages that were delivered first
+			k1, k2 := 1+r.Intn(4), 1+r.Intn(4)
+			kinds := rsKinds(r, k1+k2, pool)
+			w1 := make([]int, k1)
+			for j := range w1 {
+				w1[j] = j
+			}
+			w2 := make([]int, k2)
+			for j := range w2 {
+				w2[j] = k1 + j
+			}
+			plan := []string{"g" + rsJoinInts("", w1, "+"), fmt.Sprintf("w%d", k1)}
+			held := 0
+			if r.Bool() {
+				plan = append(plan, "h")
+				held++
+			}
+			plan = append(plan, fmt.Sprintf("ywk:%d:%d", 500+r.Intn(2500), 1+r.Intn(3)))
+			plan = append(plan, rsAnswerPlan(r, rsPerm(r, k1)[:1+r.Intn(k1)], []string{"u", "x"})...)
+			plan = append(plan, fmt.Sprintf("s%d", 100+r.Intn(500)), "g"+rsJoinInts("", w2, "+"), fmt.Sprintf("w%d", k1+k2))
+			if held > 0 {
+				plan = append(plan, "^"+[]string{"u", "x", "n77"}[r.Intn(3)])
+			}
+			// everybody not yet answered
+			answered := map[string]bool{}
+			for _, st := range plan {
+				for _, it := range strings.Split(strings.TrimSuffix(strings.TrimPrefix(st, "c("), ")"), ",") {
+					if strings.HasPrefix(it, "a") {
+						answered[strings.TrimSuffix(it[1:], "z")] = true
+					}
+				}
+			}
+			var rest []int
+			for _, c := range rsPerm(r, k1+k2) {
+				if !answered[fmt.Sprint(c)] {
+					rest = append(rest, c)
+				}
+			}
+			plan = append(plan, rsAnswerPlan(r, rest, []string{"u", "p"})...)
+			if r.Intn(3) == 0 {
+				plan = append(plan, "u", "W", "=")
+			}
+			g.Emit(fmt.Sprintf("c10.run %s %s", strings.Join(kinds, ","), strings.Join(plan, ";")), "yield-two-waves", fmt.Sprintf("callers=%d", k1+k2))
+			continue
+		}
 		k := 1 + r.Intn(g.N(10, 24))
 		kinds := rsKinds(r, k, pool)
 		all := make([]int, k)
@@ -31,5 +85,5 @@ func c10Gen(g *G) {
 }
 
 func init() {
-	register(&Prop{Name: "c10", Gen: c10Gen, Exec: rsExec("c10"), Judge: rsJudge("c10")})
+	register(&Prop{Name: "c10", Gen: c10Gen, Exec: rsExec("c10"), Judge: rsJudge("c10"), Teardown: rsTeardown})
 }
